@@ -7,7 +7,7 @@ PROPS = "Props_C02"
 
 def run(res):
     vlib.proof_step(res, PROPS, ["theories/ConnCases.vo"])
-    connrun.run_conn(res, ["perm"])
+    connrun.run_conn(res, ["perm", "cancel"])
 
 
 def replay(res, path):
